@@ -137,6 +137,14 @@ def h_setters_tc(ctx):
     ctx.holds("packet packed after setters is accepted", e is None, exc_name(e))
     tc.calc_crc()
     ctx.holds("calc_crc agrees with the trailer", tc.crc16 == raw[-2:])
+    # the generic space-packet view is another way of packing: same rule, in whatever state the stored CRC is
+    tc.seq_count = ctx.int("sc3", 0, 16383)
+    tc.app_data = ctx.octets("data3", 1)
+    v = tc.to_space_packet().pack()
+    ctx.holds("space packet view after further setters: trailer == CRC-16 of all preceding octets", sym_and(
+        ((v[-2] << 8) | v[-1]) == crc16(ctx, items_of(v)[:-2]), check_pus_crc(v) == True))  # noqa: E712
+    e, u = call(PusTc.unpack, v)
+    ctx.holds("space packet view after setters is accepted", e is None, exc_name(e))
 
 
 def h_setters_tm(ctx):
@@ -153,6 +161,21 @@ def h_setters_tm(ctx):
     ctx.holds("packet packed after setters is accepted", e is None, exc_name(e))
     tm.calc_crc()
     ctx.holds("calc_crc agrees with the trailer", tm.crc16 == raw[-2:])
+    tm.sp_header.seq_count = ctx.int("sc3", 0, 16383)
+    tm.tm_data = ctx.octets("data3", 1)
+    v = tm.to_space_packet().pack()
+    ctx.holds("space packet view after further setters: trailer == CRC-16 of all preceding octets", sym_and(
+        ((v[-2] << 8) | v[-1]) == crc16(ctx, items_of(v)[:-2]), check_pus_crc(v) == True))  # noqa: E712
+    e, u = call(PusTm.unpack, v, 2)
+    ctx.holds("space packet view after setters is accepted", e is None, exc_name(e))
+    # a decoded packet whose fields are changed afterwards
+    e, d = call(PusTm.unpack, raw, 2)
+    if e is None:
+        d.apid = ctx.int("apid4", 0, 2047)
+        v = d.to_space_packet().pack()
+        w = d.pack()
+        ctx.holds("decoded, changed, viewed/packed: trailer == CRC-16 of all preceding octets", sym_and(
+            check_pus_crc(v) == True, check_pus_crc(w) == True, v == w))  # noqa: E712
 
 
 def h_twin(ctx):
@@ -210,6 +233,11 @@ def cases(tier):
                 L = len(build(LenCtx(), kind, cfg, var).ref)
                 base = "%s-%s-%s" % (kind, vn, cname(cfg))
                 cs.append(Case(base + "-clean", kind, h_pdu, dict(kind=kind, cfg=cfg, var=var, o=None), bounds="no corruption"))
+                if cfg == cfgs[0]:
+                    # every uncorrupted PDU passes and carries its trailer: all header shapes, not only the one corrupted above
+                    for c2 in [c for c in ((1, 1, 1, 1), (2, 4, 1, 0), (8, 8, 1, 1), (4, 2, 1, 1)) if c not in cfgs]:
+                        cs.append(Case("%s-%s-%s-clean" % (kind, vn, cname(c2)), kind, h_pdu, dict(kind=kind, cfg=c2, var=var, o=None),
+                                       bounds="no corruption, entity-ID/sequence widths %d/%d, large-file flag %d" % (c2[0], c2[1], c2[3])))
                 offs = [o for o in range(8 * L) if free_bit(o, L, CFDP_EXCL)]
                 for o in offs:
                     cs.append(Case("%s-o%03d" % (base, o), kind, h_pdu, dict(kind=kind, cfg=cfg, var=var, o=o),
